@@ -35,6 +35,8 @@ AlignOK == /\ Clause("words-are-segments", WordsAreSegments(Ev, res.segs))
            \* before the first and after the last word)
            /\ Clause("models-are-those-of-the-neighbouring-phones", Ev.flat_sseq = Ev.ctx_sseq)
            /\ Clause("children-partition-parents", ChildrenPartitionParents(Ev))
+           \* a child iterator moved to another parent's children (alignment_iter_goto) delivers that parent's children
+           /\ Clause("children-after-goto", Ev.goto_same)
            /\ Clause("levels-contiguous-from-zero", EveryLevelContiguous(Ev))
            /\ Clause("parent-score-is-sum", ParentScoreIsSum(Ev))
            \* the second pass replays frames 0,1,2,... once each, in order, and no more than were searched
